@@ -523,3 +523,102 @@ V('n-parse-conditional-expression', ['C18'], [(G, """        self._checksum = ma
         self._checksum = None if (checksumText is None) else int(checksumText)
         if (self._rawChecksum is not None):
             self.text = self.text[:-len(self._rawChecksum)]""")], neutral=True)
+
+# ---------------------------------------------------------------- round-4 rules (C08.R7, C12.R5, C14.R6, C15.R3, C16.R8, C19.R6)
+V('c08-z-applied-twice', ['C08'], [(S, """        if (finalZ is not None):
+            self.position.Z_AXIS.setLogicalPosition(finalZ)
+            isMove = True
+""", """        if (finalZ is not None):
+            self.position.Z_AXIS.setLogicalPosition(finalZ)
+            isMove = (self.position.Z_AXIS.setLogicalPosition(finalZ) is not None)
+""")])
+V('c08-last-point-reapplied', ['C08', 'C01'], [(S, """            if (not anyExcluded and self.isPointExcluded(x, y)):
+                anyExcluded = True
+""", """            if (not anyExcluded and self.isPointExcluded(x, y)):
+                anyExcluded = True
+                xAxis.setLogicalPosition(xyPairs[-2])
+""")])
+V('c12-add-collision-replaces', ['C12'], [(P, """        try:
+            self.state.addRegion(region)
+            self._notifyExcludedRegionsChanged()
+            return None
+        except ValueError as err:
+            return err.args[0], 409
+""", """        try:
+            self.state.addRegion(region)
+            self._notifyExcludedRegionsChanged()
+            return None
+        except ValueError as err:
+            if (region.id is not None):
+                self.state.replaceRegion(region)
+                self._notifyExcludedRegionsChanged()
+                return None
+            return err.args[0], 409
+""")])
+V('c14-owed-recovery-dropped-on-disable', ['C14'], [(S, """            # If exclusion was disabled, stop any current exclusion
+            if (self.excluding):
+                returnCommands = self.exitExcludedRegion(context)
+""", """            # If exclusion was disabled, stop any current exclusion
+            if (self.excluding):
+                returnCommands = self.exitExcludedRegion(context)
+                self.lastRetraction = None
+""")])
+V('c15-exit-script-returned-when-nothing-else', ['C15', 'C01'], [(S, """        returnCommands = []
+
+        if (self.pendingCommands):""", """        returnCommands = self.exitingExcludedRegionGcode if (not self.pendingCommands) else []
+        if (returnCommands is None):
+            returnCommands = []
+
+        if (self.pendingCommands):""")])
+V('c16-offsets-swapped', ['C16'], [(H, """            xyPairs = self.planArc(x, y, i, j, clockwise)""", """            xyPairs = self.planArc(x, y, j, i, clockwise)""")])
+V('c16-radius-form-other-endpoint', ['C16'], [(H, """            (i, j) = self.computeArcCenterOffsets(x, y, radius, clockwise)""",
+   """            (i, j) = self.computeArcCenterOffsets(y, x, radius, clockwise)""")])
+V('c16-only-endpoint-tested', ['C16'], [(H, """            return self.state.processLinearMoves(cmd, extruderPosition, feedRate, z, *xyPairs)""",
+   """            return self.state.processLinearMoves(cmd, extruderPosition, feedRate, z, *xyPairs[-2:])""")])
+V('c16-g3-clockwise', ['C16'], [(H, """        clockwise = (gcode == "G2")""", """        clockwise = (gcode in ("G2", "G3"))""")])
+V('c16-sticky-offsets', ['C16'], [(H, """TWO_PI = 2 * math.pi
+""", """TWO_PI = 2 * math.pi
+LAST_OFFSETS = {"I": 0, "J": 0}
+"""), (H, """                elif (label == "I"):
+                    i = value
+                elif (label == "J"):
+                    j = value
+""", """                elif (label == "I"):
+                    LAST_OFFSETS["I"] = i = value
+                elif (label == "J"):
+                    LAST_OFFSETS["J"] = j = value
+"""), (H, """        if (i or j):
+            xyPairs = self.planArc(x, y, i, j, clockwise)""", """        if (radius is None):
+            i = i or LAST_OFFSETS["I"]
+        if (i or j):
+            xyPairs = self.planArc(x, y, i, j, clockwise)""")])
+V('c19-g10-label-substring', ['C19'], [(H, """            if (label in ("P", "L")):
+                return None
+""", """            if (label in "PL"):
+                return None
+""")])
+V('c19-g28-empty-label-homes', ['C19'], [(H, """            elif (label == "Z"):
+                homeZ = True
+""", """            elif (label == "Z" or not label):
+                homeZ = True
+""")])
+V('n-g10-label-set', ['C19', 'C05'], [(H, """            if (label in ("P", "L")):
+                return None
+""", """            if (label in {"P", "L"}):
+                return None
+""")], neutral=True)
+V('n-arc-offsets-local-table', ['C16', 'C19'], [(H, """        radius = None
+        i = 0
+        j = 0
+""", """        radius = None
+        offsets = {"I": 0, "J": 0}
+"""), (H, """                elif (label == "I"):
+                    i = value
+                elif (label == "J"):
+                    j = value
+""", """                elif (label in offsets):
+                    offsets[label] = value
+
+        i = offsets["I"]
+        j = offsets["J"]
+""")], neutral=True)
